@@ -230,11 +230,17 @@ def index_cases(nv=4, shape=(2, 3)):
     for j in range(Cn):
         C_.append((f"index_axis(M, {j}, 1)", lambda v, M, j=j: M[:, j]))
     C_.append(("index_axis(M)", lambda v, M: M))
-    C_.append(("index(v, i)", lambda v, M: v[2]))                       # index held by a variable (i = 2)
-    C_.append(("index(v, 1)*index_2d(M, 0, 2) - index(v, i)", lambda v, M: v[1] * M[0, 2] - v[2]))
-    C_.append(("index_range(v, 0, 2)*index(v, 3)", lambda v, M: v[0:2] * v[3]))
-    C_.append(("index_axis(M, 0, 1) + index_range(v, 1, 3)", lambda v, M: M[:, 0] + v[1:3]))
-    C_.append(("index_range(v, 1, 4)^2 - index_axis(M, 1, 0)", lambda v, M: v[1:4] * v[1:4] - M[1, :]))
+    if nv >= 3:
+        C_.append(("index(v, i)", lambda v, M: v[2]))                       # index held by a variable (i = 2)
+    # composite expressions: only where the addressed parts exist and their shapes agree
+    if nv >= 3 and Cn >= 3:
+        C_.append(("index(v, 1)*index_2d(M, 0, 2) - index(v, i)", lambda v, M: v[1] * M[0, 2] - v[2]))
+    if nv >= 4:
+        C_.append(("index_range(v, 0, 2)*index(v, 3)", lambda v, M: v[0:2] * v[3]))
+    if nv >= 3 and R == 2:
+        C_.append(("index_axis(M, 0, 1) + index_range(v, 1, 3)", lambda v, M: M[:, 0] + v[1:3]))
+    if nv >= 4 and R >= 2 and Cn == 3:
+        C_.append(("index_range(v, 1, 4)^2 - index_axis(M, 1, 0)", lambda v, M: v[1:4] * v[1:4] - M[1, :]))
     return C_
 
 
